@@ -66,7 +66,7 @@ def merge(flows, rng, mode="random"):
     return out
 
 
-TS_STYLES = ["plain", "edge-low", "edge-high", "y2100", "pow2", "dense"]
+TS_STYLES = ["plain", "edge-low", "edge-high", "y2100", "pow2", "dense", "zero"]      # "coarse" (equal stamps) is for TLS-only captures: QUIC needs distinct ones
 
 
 def stamp(items, rng, style="plain", grid=1):
@@ -75,10 +75,24 @@ def stamp(items, rng, style="plain", grid=1):
         t = 4102444800 * 10 ** 6 + rng.randrange(0, 10 ** 6)
     elif style == "pow2":
         t = (1 << rng.choice([30, 31])) * 10 ** 6 - 3
+    elif style in ("zero", "coarse"):
+        t = 0           # relative capture clock: the first packet is stamped 0
     else:
         t = 1700000000 * 10 ** 6 + rng.randrange(0, 10 ** 9)
     t -= t % grid
+    first = True
     for it in items:
+        if style == "zero" and first:
+            it.ts = prev = 0
+            first = False
+            continue
+        if style == "coarse":      # one-second clock: many packets share a stamp, the first ones are at 0
+            if not first and rng.random() < 0.25:
+                t += 10 ** 6 * rng.choice([1, 1, 2])
+            it.ts = prev = t
+            first = False
+            continue
+        first = False
         if style == "edge-low":
             step = rng.choice([1, 2, 999999, 1000000, 1000001])
             t += step
